@@ -141,7 +141,7 @@ fn run_case(case: &Case) -> Result<(bool, Vec<&'static str>), Failure> {
     let mut want = m.remaining.clone();
     got.sort_unstable();
     want.sort_unstable();
-    if m.trace.len() == k {
+    if m.trace.len() == k && limited.trace == m.trace {
         vensure!(
             got == want,
             "remaining-events-mismatch",
@@ -255,5 +255,12 @@ impl Prop for C11 {
             Ok((nt, labels)) => Outcome::ok(nt, labels),
             Err(f) => Outcome::failed(f),
         }
+    }
+    #[cfg(not(vcheck_heap_backend))]
+    fn extra(tier: Tier, seed: u64, ev: &mut ExtraEvidence) -> Vec<Violation> {
+        if tier != Tier::Thorough {
+            return Vec::new();
+        }
+        heap_backend_extra("C11", seed, ev)
     }
 }
